@@ -58,13 +58,14 @@ class _Ctx(object):
       if f == 'range' or f.endswith('itertools.product') or f == 'enumerate' \
           or f.endswith('.product') or f == 'zip':
         return 'hashable'
-      if f in ('sorted', 'list', 'tuple', 'reversed') and it.args:
+      if f in ('sorted', 'list', 'tuple', 'reversed', 'set',
+               'frozenset') and it.args:
         return self.seq_elem_kind(it.args[0], depth + 1)
       return 'opaque'
     if isinstance(it, (ast.List, ast.Tuple)):
       ks = [self.expr_kind(e, depth + 1) for e in it.elts]
       return 'hashable' if all(k == 'hashable' for k in ks) else 'opaque'
-    if isinstance(it, ast.ListComp):
+    if isinstance(it, (ast.ListComp, ast.GeneratorExp, ast.SetComp)):
       return self.expr_kind(it.elt, depth + 1, comp=it)
     if isinstance(it, ast.BoolOp) and isinstance(it.op, ast.Or):
       ks = [self.seq_elem_kind(v, depth + 1) for v in it.values]
@@ -193,6 +194,27 @@ def check_function(prog, res, fn, rule='T4'):
                     'sequences that may be lists (every config round trip '
                     'turns tuples into lists): TypeError unhashable type' %
                     norm_text(s)[:50])
+      continue
+    if isinstance(s, ast.Compare) and len(s.ops) == 1 and isinstance(
+        s.ops[0], (ast.In, ast.NotIn)) and isinstance(s.left, ast.Tuple):
+      # (a, b, c) in constraints: a tuple never equals a list, so the
+      # members must be tuples (constraints reloaded from JSON are lists)
+      ctx = _Ctx(prog, fn, _scope_of(fn, s))
+      k = ctx.seq_elem_kind(s.comparators[0])
+      if k in ('hashable', 'maybe'):
+        key = '%s|%s in %s' % (fn.qualname, norm_text(s.left)[:30],
+                               norm_text(s.comparators[0])[:30])
+        idx = seen.get(key, 0)
+        seen[key] = idx + 1
+        if not idx:
+          n += 1
+          res.check(k == 'hashable', rule, key, fn.loc(s),
+                    'the tuple is looked up among tuples',
+                    '`%s` looks a tuple up in a caller-supplied constraint '
+                    'list whose elements may be lists (every config round '
+                    'trip turns tuples into lists; (1, 2) != [1, 2]): the '
+                    'lookup silently fails for a reloaded layer' %
+                    norm_text(s)[:70])
       continue
     if not elems:
       continue
